@@ -209,6 +209,59 @@ def judge(cfg, sysd, exp, res, choices):
     return viols
 
 
+def ignored_do_not_disturb(cfg, sysd, exp, stats):
+    """differential: the molecules that are built get exactly the positions they get when the ignored entries are not in
+    the topology at all (same choices), wherever the ignored type stands in [ molecules ]"""
+    viols = []
+    ign = cfg["ign"]
+    res_with = run_exec(sysd, Chooser([]))
+    s2 = json.loads(json.dumps(sysd))
+    s2["molecules"] = [m for m in s2["molecules"] if m[0] != ign]
+    s2["types"] = sorted({m[0] for m in s2["molecules"]})
+    s2["kwargs"].pop("ignore", None)
+    rl2 = residue_list(s2)
+    # the supplied coordinates of the remaining molecules, in their new order
+    kept = [(x, i) for i, x in enumerate(exp["rl"]) if x[1] != ign]
+    given_old = {(x[0], x[2]) for x in exp["rl"] if (x[0], x[2]) in exp["given"]}
+    in_atoms, in_coords = [], []
+    for (new, (old, _)) in zip(rl2, kept):
+        if (old[0], old[2]) in given_old:
+            for an in old[4]:
+                in_atoms.append((old[2] + 1, old[3], an))
+                in_coords.append(tuple(exp["atoms"][(old[0], old[2], an)]))
+    # supplied residues must form a prefix of the reduced residue list, otherwise the comparison input cannot be written
+    flags = [(old[0], old[2]) in given_old for (old, _) in kept]
+    if flags != sorted(flags, reverse=True):
+        return viols
+    if in_atoms:
+        s2["input"] = dict(kind="c", atoms=in_atoms, coords=in_coords, box=BOX)
+    else:
+        s2.pop("input", None)
+    res_without = run_exec(s2, Chooser([]))
+    stats["ignored_differential_runs"] = stats.get("ignored_differential_runs", 0) + 1
+    if res_with["exc"] is not None or res_without["exc"] is not None:
+        return viols          # crashes are reported by the main exploration
+    def built(res, layout_old):
+        out = []
+        for e in res["events"]:
+            if e[0] == "add":
+                out.append((e[1], e[2], e[3]))
+        return out
+    newidx = {}
+    k = 0
+    for mi in sorted({x[0] for x in exp["rl"]}):
+        if [x for x in exp["rl"] if x[0] == mi][0][1] != ign:
+            newidx[mi] = k
+            k += 1
+    a = [(newidx[m], n, p) for m, n, p in built(res_with, None) if m in newidx]
+    b = built(res_without, None)
+    if a != b:
+        viols.append(dict(assertion="ignored-molecules-do-not-disturb-the-others", tags=["ignored-molecule-present"],
+                          message=f"placements with the ignored entries {a} differ from placements without them {b} | mols={cfg['sys']['molecules']} given={cfg.get('given')}",
+                          case=dict(cfg, choices=[]), detail={}))
+    return viols
+
+
 def run_case(cfg):
     sysd, exp = materialise(cfg)
     if "choices" in cfg:
@@ -218,6 +271,8 @@ def run_case(cfg):
     bounds = {"fault": F, "vec": 1, "grid": 0, "*": F}
     evals, keys, viols, traces, ntrans = 0, set(), [], set(), 0
     stats = dict(executions=0, horizon_cuts=0, failed_attempts=0, rewinds=0, unowned_random_draws=0)
+    if cfg.get("ign"):
+        viols += ignored_do_not_disturb(cfg, sysd, exp, stats)
     for prefix, ch, res in explore(lambda c: run_exec(sysd, c), bounds, stats=stats, max_execs=1500):
         evals += 1
         ntrans += len(ch.trace)
